@@ -447,6 +447,57 @@ Proof.
 Qed.
 
 (* ------------------------------------------------------------------ *)
-(* the bit-set oracle used by the correspondence check *)
-Lemma in_bounds_line s e p : in_bbox s e p -> in_line_bounds s e 1 p = true.
-Proof. unfold in_bbox, in_line_bounds, line_margin. cbn. lia. Qed.
+(* the statements of Props_C36.v, with the boolean tests spelled out *)
+Lemma draw_line_in_image_spec h w s e :
+  0 <= h -> 0 <= w ->
+  exists l, draw_line1 h w s e = Writes l /\
+    forall p, In p l ->
+      (0 <= py p < h /\ 0 <= px p < w) /\
+      (Z.min (py s) (py e) <= py p <= Z.max (py s) (py e) /\
+       Z.min (px s) (px e) <= px p <= Z.max (px s) (px e)).
+Proof.
+  intros Hh Hw. destruct (draw_line_in_image h w s e Hh Hw) as (l & E & H).
+  exists l. split; [exact E|]. intros p Hp. destruct (H p Hp) as [Hi Hb].
+  split; [apply in_image_spec; exact Hi|exact Hb].
+Qed.
+
+Lemma fill_rect_writes_spec h w r :
+  exists l, fill_rect h w r = Writes l /\
+    forall p, In p l <->
+      ((r_top r <= py p < r_bottom r /\ r_left r <= px p < r_right r) /\
+       (0 <= py p < h /\ 0 <= px p < w)).
+Proof.
+  destruct (fill_rect_writes h w r) as (l & E & H).
+  exists l. split; [exact E|]. intros p. rewrite H, in_image_spec.
+  unfold in_rect. rewrite !andb_true_iff, !Z.leb_le, !Z.ltb_lt. tauto.
+Qed.
+
+Lemma stroke_rect_writes_spec h w r wd :
+  exists l, stroke_rect h w r wd = Writes l /\
+    forall p, In p l ->
+      (0 <= py p < h /\ 0 <= px p < w) /\
+      (r_top r <= py p < r_bottom r /\ r_left r <= px p < r_right r) /\
+      ~ (r_top r + wd <= py p < r_bottom r - wd /\ r_left r + wd <= px p < r_right r - wd) /\
+      0 < wd.
+Proof.
+  destruct (stroke_rect_writes h w r wd) as (l & E & H).
+  exists l. split; [exact E|]. intros p Hp. destruct (H p Hp) as (Hi & Hr & Hn & Hw).
+  split; [apply in_image_spec; exact Hi|].
+  revert Hr Hn. unfold in_rect, stroke_inner; cbn.
+  rewrite !andb_true_iff, !andb_false_iff, !Z.leb_le, !Z.ltb_lt, !Z.leb_gt, !Z.ltb_ge. lia.
+Qed.
+
+Lemma draw_polygon_in_image_spec h w pts :
+  0 <= h -> 0 <= w ->
+  exists l, draw_polygon1 h w pts = Writes l /\
+    forall p, In p l ->
+      (0 <= py p < h /\ 0 <= px p < w) /\
+      exists a b, In a pts /\ In b pts /\
+        Z.min (py a) (py b) <= py p <= Z.max (py a) (py b) /\
+        Z.min (px a) (px b) <= px p <= Z.max (px a) (px b).
+Proof.
+  intros Hh Hw. destruct (draw_polygon_in_image h w pts Hh Hw) as (l & E & H).
+  exists l. split; [exact E|]. intros p Hp. destruct (H p Hp) as (Hi & (e & He & Hb)).
+  split; [apply in_image_spec; exact Hi|].
+  destruct (edges_vertices pts e He) as [Ha Hb']. exists (fst e), (snd e). auto.
+Qed.
